@@ -70,7 +70,10 @@ def main(argv=None):
         reg.load_dir(os.path.join(report.VERIF, "contracts"), only=entry["contracts"])
         e = Engine(repo, reg, prop=prop)
         errors = []
-        for q in entry["functions"]:
+        fn_list = entry["functions"]
+        if fn_list == "ALL_NORAISE":
+            fn_list = [q for q, c in reg.contracts.items() if c.noraise and not c.assumed and q in repo.funcs]
+        for q in fn_list:
             if args.only and args.only not in q:
                 continue
             r = verify_function(e, q)
